@@ -55,7 +55,7 @@ PROPS = {
     ),
     'C14': dict(
         level='proof',
-        contracts=['C14'],
+        contracts=['C14', 'C03'],
         frames=['codec_lemma'],
         technique='deductive: VCs from the real AST of _hval, HeaderDict.__setitem__/append/setdefault, HeaderProperty.__set__, '
                   'BaseResponse.__init__ (data-structure invariant Clean(dict)); complete per-code-point enumeration of the emission '
@@ -164,7 +164,7 @@ PROPS = {
         trusted_base=['urllib.parse.unquote total', 'uniqueness of the decomposition of a string into &-segments (meta-argument)'],
     ),
     'C03': dict(
-        level='other', contracts=[], frames=[],
+        level='other', contracts=['C03'], frames=[],
         technique='bounded run-time contract check: independent PEP 3333 validator as postcondition of Ombott.__call__ over an enumerated '
                   'space of handler programs x methods x statuses x hook configurations',
         explanation='BOUNDED: exhaustive product of handler programs; see coverage.bounded.',
@@ -180,7 +180,7 @@ PROPS = {
         level_note='Preemption bound and request kinds are stated in coverage.bounded.bound.',
     ),
     'C09': dict(
-        level='other', contracts=['C14'], frames=[],
+        level='other', contracts=['C14', 'C03'], frames=[],
         technique='bounded run-time contract check of request histories against a fresh application + weak-reference retention count; '
                   'VC on BaseResponse.__init__ (reset completeness)',
         explanation='BOUNDED histories; reset completeness of the response object proved (BaseResponse.__init__).',
